@@ -6,6 +6,8 @@ peers in the order they are tried, i.e. for every permutation `rand.Perm` can pr
 -/
 import Drand.Beacon.Sync
 import DrandProofs.C02
+import Gen.Sync
+import Gen.Consts
 
 namespace Drand.Beacon.Sync
 open Drand Drand.Store Drand.Chain
@@ -1580,5 +1582,115 @@ theorem c10_run_admission (factor period : Nat) (now : Int) (rs : RunState) (las
     · rw [h2] at h; cases h
     · omega
   rw [if_neg h1, if_neg this]
+
+/-! ### ties to the source (regenerated by tools/go2lean/sync.go on every run) -/
+
+/-- the order of checks of the model's `loop` is the order of the source: channel closed, beacon id, VerifyBeacon — each
+ending the attempt with `false` — before either `Put`; the already-stored race answers `beacon.Round == upTo`; then the
+target test. (Round checks, if the source has any, are listed in `Gen.tryNodeRoundChecks` and precede the Puts.) -/
+theorem tie_tryNode_guards :
+    Gen.tryNodeGuards =
+      ["closed", "beaconID", "VerifyBeacon", "insecureStore.Put", "store.Put", "already:beacon.Round==upTo", "target"] := by
+  decide
+
+/-- the participant stack is callbackStore(appendStore(schemeStore(discrepancyStore(base)))), the sync manager gets the
+top of it as `Store` and the base store as `BoltdbStore`; `Sync` skips the node's own address; `ReSync` retries once -/
+theorem tie_participant_stack :
+    Gen.chainStoreStack = ["newDiscrepancyStore", "NewSchemeStore", "newAppendStore", "NewCallbackStore"] ∧
+    Gen.chainStoreSyncStores = ("cbs", "store") ∧ Gen.followSyncStores = ("cbStore", "store") ∧
+    Gen.syncSkipsSelf = true ∧ Gen.reSyncRetries = true := by
+  decide
+
+/-- the variants of the model that describe the source as it is now (used by the driver as defaults; the check decides
+the variant by replaying the witnesses on the implementation) -/
+def sourceVariant : Bool × Bool :=
+  (!Gen.tryNodeRoundChecks.isEmpty, Gen.followErrChanMade)
+
+/-! ### non-vacuity -/
+section examples
+
+def exChain (r : Nat) : Beacon := if r = 0 then ⟨0, [0, 0], []⟩ else ⟨r, [1, UInt8.ofNat r], []⟩
+def exBad : Peer := ⟨"bad", fun f => .stream [.pkt ⟨f, [2, UInt8.ofNat f], []⟩ true]⟩
+def exForeign : Peer := ⟨"foreign", fun f => .stream [.pkt ⟨f, [1, UInt8.ofNat f], []⟩ false]⟩
+def exStall : Peer := ⟨"stall", fun f => .stream [.pkt ⟨f, [1, UInt8.ofNat f], []⟩ true, .stall]⟩
+def exSelf : Peer := ⟨"self", fun _ => .err⟩
+
+-- c10_only_verified / c10_in_order / c10_converges: liars first, the own address skipped, then the honest peer
+example : (sync (cxCfg .participant) "self" 0 3 false (cxNode false) [exBad, exSelf, exForeign, cxSkip, cxHonest 5]).2.1 = .ok ∧
+    (sync (cxCfg .participant) "self" 0 3 false (cxNode false) [exBad, exSelf, exForeign, cxSkip, cxHonest 5]).1.writes.map (·.stored.round) = [3, 2, 1] ∧
+    (sync (cxCfg .participant) "self" 0 3 false (cxNode false) [exBad, exSelf, exForeign, cxSkip, cxHonest 5]).1.calls.map (·.1) = ["honest", "liar", "foreign", "bad"] := by
+  decide
+-- a stalling peer before the honest one: the attempt is cancelled with partial progress (hypothesis NoStall of c10_converges is needed)
+example : (sync (cxCfg .participant) "self" 0 3 false (cxNode false) [exStall, cxHonest 5]).2.1 = .cancelled ∧
+    (sync (cxCfg .participant) "self" 0 3 false (cxNode false) [exStall, cxHonest 5]).1.head = 1 := by decide
+-- c10_converges_restarts: the cancelled attempt, then one with the honest peer first
+example : (restarts (cxCfg .participant) "self" 3 (cxNode false) [[exStall, cxHonest 5], [cxHonest 5, exStall]]).head = 3 := by decide
+-- the hypotheses of c10_converges are jointly satisfiable: an ideal unchained scheme with unary signatures
+def idChain (r : Nat) : Beacon := ⟨r, if r = 0 then [0] else List.replicate r 1, []⟩
+def idVerify (b : Beacon) : Bool := decide (1 ≤ b.round) && (b.sig == List.replicate b.round 1)
+def idCfg : Cfg := { verify := idVerify, lastErr := fun _ => false, mode := .participant, roundCheck := false, rangeCheck := false, followRetry := false }
+def idNode : Node := ⟨Stack.init false [0], [], []⟩
+def idHonest : Peer := ⟨"honest", fun f => .stream (honestItems idChain f 5)⟩
+
+theorem idIdeal : Ideal idVerify false idChain := by
+  refine ⟨fun r => rfl, fun h => (by cases h), ?_, ?_, ?_⟩
+  · intro b hb
+    simp only [idVerify, Bool.and_eq_true, decide_eq_true_eq, beq_iff_eq] at hb
+    refine ⟨hb.1, ?_, fun h => (by cases h)⟩
+    simp only [idChain]
+    rw [if_neg (by omega)]; exact hb.2
+  · intro r hr
+    simp only [idVerify, idChain, Bool.and_eq_true, decide_eq_true_eq, beq_iff_eq]
+    exact ⟨decide_eq_true hr, by rw [if_neg (by omega)]⟩
+  · intro r r' h
+    simp only [idChain] at h
+    by_cases h0 : r = 0 <;> by_cases h0' : r' = 0
+    · omega
+    · rw [if_pos h0, if_neg h0'] at h
+      have := congrArg List.length h
+      simp at this
+      have h1 : r' = 1 := by omega
+      subst h1; simp at h
+    · rw [if_neg h0, if_pos h0'] at h
+      have := congrArg List.length h
+      simp at this
+      have h1 : r = 1 := by omega
+      subst h1; simp at h
+    · rw [if_neg h0, if_neg h0'] at h
+      simpa using congrArg List.length h
+
+example : (sync idCfg "self" 0 3 false idNode ([exBad, exForeign] ++ idHonest :: [exStall])).2.1 = .ok ∧
+    (sync idCfg "self" 0 3 false idNode ([exBad, exForeign] ++ idHonest :: [exStall])).1.head = 3 := by
+  have h := c10_converges idCfg idChain "self" 3 5 idNode [exBad, exForeign] [exStall] idHonest idIdeal (Or.inl rfl)
+    (fun _ _ => rfl) (c02_init_inv false [0])
+    (by intro r hr
+        have : r = 0 := by have : idNode.head = 0 := rfl
+                           omega
+        subst this; rfl)
+    (by decide) (by decide)
+    (fun f _ => ⟨[], by simp [idHonest]⟩) (by decide)
+    (by intro p hp f items hs
+        simp only [List.mem_cons, List.mem_nil_iff, or_false] at hp
+        rcases hp with rfl | rfl
+        · simp only [exBad, Resp.stream.injEq] at hs; subst hs; simp
+        · simp only [exForeign, Resp.stream.injEq] at hs; subst hs; simp)
+  exact ⟨h.1, h.2.1⟩
+-- c10_check_exact: rounds 2 (missing) and 4 (does not verify) of a store with head 5
+example : checkPast cxVerify (fun r => if r = 2 then none else if r = 4 then some ⟨4, [2, 4], []⟩ else some ⟨r, [1, UInt8.ofNat r], []⟩) 5 9 = [2, 4] := by
+  decide
+-- c10_resync_retry / c10_correct_exact: first attempt fails transiently, the retry is served
+example : (correctPast { cxCfg .participant with rangeCheck := true } "self" (fun _ => ([cxCloser], [cxHonest 9])) cxNode3 [2, 3]).2.1 = .ok := by
+  decide
+-- with the range check the liar of c10_correct_counterexample is refused and the honest peer repairs round 2 only
+example : (correctPast { cxCfg .participant with rangeCheck := true } "self" (fun _ => ([cxBeyond, cxHonest 9], [])) cxNode3 [2]).1.st.base.map (·.1) = [0, 1, 2, 3] := by
+  decide
+-- c10_follow_order: with the round check the skipping peer of the counterexample is refused
+example : (sync { cxCfg .follow with roundCheck := true } "self" 0 9 false (cxNode false) [cxSkip]).1.st.base.map (·.1) = [0] := by
+  decide
+-- c10_run_admission: first request starts (the initial context is alive but lastRoundTime is 0), a second one 1 s later is ignored, one after 2·period starts again
+example : (admit 2 3 1000 ⟨0, true⟩ 5 9).2 = .start ∧ (admit 2 3 1001 ⟨1000, true⟩ 5 9).2 = .ignore ∧
+    (admit 2 3 1007 ⟨1000, true⟩ 5 9).2 = .start ∧ (admit 2 3 1001 ⟨1000, true⟩ 9 9).2 = .filled := by decide
+
+end examples
 
 end Drand.Beacon.Sync
